@@ -950,6 +950,11 @@ def history_dependent(f):
         o = run_replay(cfg, seed)
         if 'crash' in o:
             return None, o
+        rep_bad = [(si, pi) for si, st in enumerate(o['steps']) for pi, pr in enumerate((st['out'].get('prove') or []) if isinstance(st['out'], dict) else [])
+                   if isinstance(pr, dict) and 'repeat' in pr and 'proof' in pr and pr['repeat'] != pr['proof']]
+        if rep_bad:
+            bad.append({'seed': seed, 'proving again with the same objects, transcript and RNG stream gives other bytes (step, member)': rep_bad[:3]})
+            continue
         for at in range(len(steps)):
             fresh = run_replay({'scenario': 'history', 'steps': [steps[at]]}, seed)
             if 'crash' in fresh:
